@@ -283,8 +283,10 @@ class TaskDispatcher(object):
         if branch_id and execution_arn in branch_metadata:
             # Get the dict containing all the branch results for this execution
             all_branch_results = branch_metadata[execution_arn].results
-            branch_results = all_branch_results[branch_id]
-            if branch_results.get("terminated"):
+            # (After a restart the results of this Map or Parallel state are
+            # only there again once one of its redelivered events has arrived.)
+            branch_results = all_branch_results.get(branch_id)
+            if branch_results and branch_results.get("terminated"):
                 return True
         return False
 
